@@ -32,7 +32,71 @@ func concurrentStruct(T *types.Named) bool {
 	if !ok {
 		return false
 	}
-	return structHasSync(st, 0)
+	if structHasSync(st, 0) {
+		return true
+	}
+	// a record published through an atomic.Pointer[T] field of a struct meant for concurrent use: its members are
+	// shared between the goroutines that share the publisher
+	return publishedRecords(T.Obj().Pkg())[T]
+}
+
+var publishedCache = map[*types.Package]map[*types.Named]bool{}
+
+func publishedRecords(pkg *types.Package) map[*types.Named]bool {
+	if pkg == nil {
+		return nil
+	}
+	if m, ok := publishedCache[pkg]; ok {
+		return m
+	}
+	out := map[*types.Named]bool{}
+	publishedCache[pkg] = out
+	var recordOf func(t types.Type, d int) *types.Named
+	recordOf = func(t types.Type, d int) *types.Named {
+		if d > 4 {
+			return nil
+		}
+		switch x := t.(type) {
+		case *types.Named:
+			// atomic.Pointer[T]
+			if x.Obj().Pkg() != nil && x.Obj().Pkg().Path() == "sync/atomic" && x.TypeArgs() != nil && x.TypeArgs().Len() == 1 {
+				if n, ok := x.TypeArgs().At(0).(*types.Named); ok && n.Obj().Pkg() == pkg {
+					if _, isSt := n.Underlying().(*types.Struct); isSt {
+						return n
+					}
+				}
+			}
+		}
+		return nil
+	}
+	var work []*types.Named
+	for _, name := range pkg.Scope().Names() {
+		tn, ok := pkg.Scope().Lookup(name).(*types.TypeName)
+		if !ok {
+			continue
+		}
+		n, ok := tn.Type().(*types.Named)
+		if !ok {
+			continue
+		}
+		if st, ok := n.Underlying().(*types.Struct); ok && structHasSync(st, 0) {
+			work = append(work, n)
+		}
+	}
+	for len(work) > 0 {
+		n := work[0]
+		work = work[1:]
+		st := n.Underlying().(*types.Struct)
+		for i := 0; i < st.NumFields(); i++ {
+			if r := recordOf(st.Field(i).Type(), 0); r != nil && !out[r] {
+				if rs, ok := r.Underlying().(*types.Struct); ok && !structHasSync(rs, 0) {
+					out[r] = true
+					work = append(work, r)
+				}
+			}
+		}
+	}
+	return out
 }
 
 func structHasSync(st *types.Struct, depth int) bool {
